@@ -19,6 +19,9 @@ KINDS = {
     "set": (("lv", "const", "rv", "prv", "cprv"), False, 0, 6, True),
     "map": (("lv", "const", "rv", "prv", "cprv"), False, 0, 6, True),
     "carr": (("lv", "const"), True, 1, 6, False),
+    # temporaries whose element type (std::any) can be constructed from the range itself
+    "anyv": (("rv", "prv", "cprv"), False, 0, 4, False),
+    "anyl": (("rv", "prv", "cprv"), False, 0, 4, False),
     "il": (("rv",), False, 1, 4, False),
 }
 
@@ -45,13 +48,13 @@ def gen_c20(tier, rng):
                         if writable and cat == "lv":
                             out.append(case("iter", ad, kind, cat, "1", vl(xs)))
                         # composed / moved adaptors and the post-increment loop (container classes only)
-                        if ad == "e" and kind not in ("carr", "il"):
+                        if ad == "e" and kind not in ("carr", "il", "anyv", "anyl"):
                             out.append(case("iter", "er", kind, cat, "0", vl(xs)))
                             if cat == "lv":
                                 out.append(case("iter", "ep", kind, cat, "0", vl(xs)))
                                 out.append(case("iter", "ek", kind, cat, "0", vl(xs)))
                                 out.append(case("iter", "ec", kind, cat, "0", vl(xs)))
-                        if ad == "r" and kind not in ("carr", "il") and cat == "rv":
+                        if ad == "r" and kind not in ("carr", "il", "anyv", "anyl") and cat == "rv":
                             out.append(case("iter", "rm", kind, cat, "0", vl(xs)))
     # a range whose iterator throws once from an increment (without moving); the loop tries that step again
     for n in range(1, 7):
